@@ -3,7 +3,7 @@
 # repository's own suite green, (3) makes its demonstration fail, while (4) the demonstration passes without it.
 seed=$1
 dir=/verif/seeded/$seed
-wt=/tmp/sw/confirm-$seed
+wt=/var/tmp/vxlogs/confirm-$seed
 log=$dir/confirm.log
 rm -rf $wt; git -C /repo worktree prune
 git -C /repo worktree add --detach $wt HEAD >/dev/null 2>&1 || { echo "worktree failed"; exit 2; }
@@ -11,12 +11,12 @@ export CARGO_NET_OFFLINE=true
 {
 echo "== base: $(git -C /repo rev-parse --short HEAD)"
 cd $wt
-echo "== demo without change"; bash $dir/demo/run.sh $wt >/tmp/sw/confirm-$seed.d0 2>&1; d0=$?; tail -3 /tmp/sw/confirm-$seed.d0; echo "exit $d0"
+echo "== demo without change"; bash $dir/demo/run.sh $wt >/var/tmp/vxlogs/confirm-$seed.d0 2>&1; d0=$?; tail -3 /var/tmp/vxlogs/confirm-$seed.d0; echo "exit $d0"
 git checkout -q -- . ; git clean -fdq -e target
 echo "== apply"; git apply $dir/patch.diff; ap=$?; echo "exit $ap"
-echo "== suite with change"; cargo test --workspace --no-fail-fast --offline >/tmp/sw/confirm-$seed.s1 2>&1; s1=$?; grep -E "^test result" /tmp/sw/confirm-$seed.s1; echo "exit $s1"
-passed=$(grep -E "^test result" /tmp/sw/confirm-$seed.s1 | sed 's/.*ok\. \([0-9]*\) passed.*/\1/' | paste -sd+ | bc)
-echo "== demo with change"; bash $dir/demo/run.sh $wt >/tmp/sw/confirm-$seed.d1 2>&1; d1=$?; grep -E "^error|panicked|FAILED|failed" /tmp/sw/confirm-$seed.d1 | head -5; echo "exit $d1"
+echo "== suite with change"; cargo test --workspace --no-fail-fast --offline >/var/tmp/vxlogs/confirm-$seed.s1 2>&1; s1=$?; grep -E "^test result" /var/tmp/vxlogs/confirm-$seed.s1; echo "exit $s1"
+passed=$(grep -E "^test result" /var/tmp/vxlogs/confirm-$seed.s1 | sed 's/.*ok\. \([0-9]*\) passed.*/\1/' | paste -sd+ | bc)
+echo "== demo with change"; bash $dir/demo/run.sh $wt >/var/tmp/vxlogs/confirm-$seed.d1 2>&1; d1=$?; grep -E "^error|panicked|FAILED|failed" /var/tmp/vxlogs/confirm-$seed.d1 | head -5; echo "exit $d1"
 } > $log 2>&1
 cd /verif
 ok=false; if [ "$d0" = 0 ] && [ "$ap" = 0 ] && [ "$s1" = 0 ] && [ "$d1" != 0 ] && [ "$passed" = 40 ]; then ok=true; fi
